@@ -194,6 +194,45 @@ Theorem C09_split_invariant : forall (rmatch : str -> str -> bool) q db1 db2 gid
 Proof. exact split_invariant. Qed.
 Print Assumptions C09_split_invariant.
 
+(* ---------- the time range of a query ----------
+   The engine decodes every datapoint of a selected series in every block that overlaps the range, in
+   ARRIVAL order (the writer accepts out-of-order timestamps), and skips the datapoints outside
+   [lo, hi] one by one (CheckInRange, both ends inclusive).
+   FULL STATEMENT: the answer over [lo, hi] is the answer over all data restricted to lo <= t <= hi —
+   for every query, output group and timestamp; no assumption on the order of the datapoints. *)
+Theorem C09_range_is_restriction : forall (rmatch : str -> str -> bool) lo hi q db gid t,
+  result_at_range rmatch lo hi q db gid t =
+  if in_range lo hi t then result_at rmatch q db gid t else None.
+Proof. exact range_is_restriction. Qed.
+Print Assumptions C09_range_is_restriction.
+
+(* ... hence the same for open and rotated data, for any cut of the series into blocks and segments and
+   any arrival order inside a block (datapoints of the two stores are permutations of each other) *)
+Theorem C09_range_split_invariant : forall (rmatch : str -> str -> bool) lo hi q db1 db2 gid t,
+  Forall2 same_series db1 db2 ->
+  result_at_range rmatch lo hi q db1 gid t = result_at_range rmatch lo hi q db2 gid t.
+Proof. exact range_split_invariant. Qed.
+Print Assumptions C09_range_split_invariant.
+
+(* every sample of the reported answer lies inside the range and is the sample of the unclipped answer *)
+Theorem C09_range_samples_inside : forall (rmatch : str -> str -> bool) lo hi q db e t v,
+  In e (run_query_range rmatch lo hi q db) -> In (t, v) (snd e) ->
+  (lo <= t <= hi)%Z /\ result_at rmatch q db (fst e) t = Some v.
+Proof. exact range_samples_inside. Qed.
+Print Assumptions C09_range_samples_inside.
+
+(* skipping a block / segment whose summary [LowTs, HighTs] fails CheckRangeOverLap loses nothing:
+   for any bounds of the block's timestamps, reading with the check = clipping every datapoint *)
+Theorem C09_range_block_pruning_sound : forall (lo hi : Z) (bounds : Z * Z) (pts : list pt),
+  (forall p, In p pts -> (fst bounds <= fst p <= snd bounds)%Z) ->
+  read_block lo hi bounds pts = clip_pts lo hi pts.
+Proof. exact block_pruning_sound. Qed.
+Print Assumptions C09_range_block_pruning_sound.
+
+Example C09_range_overlap_nonvacuous :
+  (range_overlap 10 20 5 30 = true /\ range_overlap 10 20 20 40 = true /\ range_overlap 10 20 21 40 = false)%Z.
+Proof. exact range_overlap_examples. Qed.
+
 (* ---------- arithmetic between vectors (fixed code, fixes/C09-arith-missing-sample) ---------- *)
 Theorem C09_vector_arith_matches_labels : forall (rmatch : str -> str -> bool) op q1 q2 db e,
   In e (run_arith rmatch op q1 q2 db) ->
